@@ -24,7 +24,7 @@ func init() {
 			{ID: "C12.R4", Floor: 8, Doc: "date/time/timestamp units, floor and origin", Run: c12r4},
 			{ID: "C12.R5", Floor: 10, Doc: "collection / tuple / UDT framing order", Run: c12r5},
 			{ID: "C12.R7", Floor: 3, Doc: "encBigInt2C boundary handling: sign byte for positives, redundant 0xff for negatives", Run: c12r7},
-			{ID: "C12.R8", Floor: 2, Doc: "varint trimming keeps the sign byte when it is needed (=C02.R8)", Run: c02r8},
+			{ID: "C12.R8", Floor: 1, Doc: "varint trimming keeps the sign byte when it is needed (=C02.R8)", Run: c02r8},
 			{ID: "C12.R9", Floor: 10, Doc: "collection / tuple / UDT writers emit length -1 exactly for a nil encoding (=C02.R4)", Run: c02r4},
 			{ID: "C12.R6", Floor: 6, Doc: "vint coding agrees with the specification on its finite domains", Run: c12r6},
 		},
@@ -483,6 +483,38 @@ func c12r2(p *Program, r *Report) {
 				}
 				return true
 			})
+			if !okR {
+				// the parameter itself is shortened from the front (p = p[k:]) and returned
+				cinfo := callee.Pkg.TypesInfo
+				pobj := cinfo.Defs[callee.Decl.Type.Params.List[0].Names[0]]
+				nres, onlySuffix, retsParam := 0, true, true
+				ast.Inspect(callee.Decl.Body, func(y ast.Node) bool {
+					switch z := y.(type) {
+					case *ast.AssignStmt:
+						for i, l := range z.Lhs {
+							if !isIdentOf(cinfo, l, pobj) {
+								continue
+							}
+							if len(z.Rhs) != len(z.Lhs) {
+								onlySuffix = false
+								continue
+							}
+							sl, isSl := ast.Unparen(z.Rhs[i]).(*ast.SliceExpr)
+							if isSl && isIdentOf(cinfo, sl.X, pobj) && sl.Low != nil && sl.High == nil {
+								nres++
+							} else {
+								onlySuffix = false
+							}
+						}
+					case *ast.ReturnStmt:
+						if len(z.Results) != 1 || !isIdentOf(cinfo, z.Results[0], pobj) {
+							retsParam = false
+						}
+					}
+					return true
+				})
+				okR = nres > 0 && onlySuffix && retsParam
+			}
 			return okR
 		}
 		ast.Inspect(fi.Decl.Body, func(x ast.Node) bool {
@@ -513,9 +545,24 @@ func c12r2(p *Program, r *Report) {
 		ok9 := false
 		ast.Inspect(fi.Decl.Body, func(x ast.Node) bool {
 			if ifs, ok := x.(*ast.IfStmt); ok && strings.Contains(exprStr(ifs.Cond), "math.MaxInt64") {
-				s := exprStr9(ifs.Body)
-				if strings.Contains(s, "make([]byte, 9)") && strings.Contains(s, "PutUint64(retBytes[1:], v)") {
-					ok9 = true
+				// X = make([]byte, 9); binary.BigEndian.PutUint64(X[1:], v)
+				nine := ""
+				ast.Inspect(ifs.Body, func(y ast.Node) bool {
+					if as, isAs := y.(*ast.AssignStmt); isAs && len(as.Lhs) == 1 && len(as.Rhs) == 1 {
+						if mc, isC := ast.Unparen(as.Rhs[0]).(*ast.CallExpr); isC && calleeName(info, mc) == "builtin.make" && len(mc.Args) == 2 {
+							if k, isK := constInt(info, mc.Args[1]); isK && k == 9 {
+								nine = exprStr(as.Lhs[0])
+							}
+						}
+					}
+					return true
+				})
+				for _, pc := range callsIn(ifs.Body) {
+					if calleeName(info, pc) == "binary.(bigEndian).PutUint64" && len(pc.Args) == 2 && nine != "" {
+						if b, lo, hi, okR := p.regionConst(fi, pc.Args[0]); okR && b == nine && lo == 1 && hi < 0 {
+							ok9 = true
+						}
+					}
 				}
 			}
 			return true
@@ -1037,11 +1084,15 @@ func writeSeqP(p *Program, info *types.Info, n ast.Node, buf string, depth int) 
 		}
 		switch {
 		case isCallTo(info, c, "writeCollectionSize") && len(c.Args) == 3:
-			out = append(out, "size("+exprStr(c.Args[1])+")")
+			out = append(out, "size("+lenNorm(info, n, c.Args[1])+")")
 		case calleeName(info, c) == "bytes.(*Buffer).Write" && len(c.Args) == 1:
 			out = append(out, "bytes("+exprStr(c.Args[0])+")")
 		case isCallTo(info, c, "appendInt") && len(c.Args) == 2:
-			out = append(out, "int("+stripConv(info, c.Args[1])+")")
+			if id, isId := ast.Unparen(stripAllConv(info, c.Args[1])).(*ast.Ident); isId {
+				out = append(out, "int("+lenNorm(info, n, id)+")")
+			} else {
+				out = append(out, "int("+stripConv(info, c.Args[1])+")")
+			}
 		case isCallTo(info, c, "appendBytes") && len(c.Args) == 2:
 			out = append(out, "lenbytes("+exprStr(c.Args[1])+")")
 		case exprStr(c.Fun) == "append" && len(c.Args) == 2 && c.Ellipsis.IsValid():
@@ -1070,7 +1121,7 @@ func c12r5(p *Program, r *Report) {
 			r.Unresolved("marshalList: element loop not found")
 		} else {
 			seq := writeSeqP(p, info, loop.Body, "buf", 0)
-			r.Check(strings.Join(seq, " ") == "size(itemLen) bytes(item)", loop, "marshalList element framing", strings.Join(seq, " "), "a list element is framed as `"+strings.Join(seq, " ")+"`, not [size][bytes]")
+			r.Check(framedPairs(seq, 1, "size"), loop, "marshalList element framing", strings.Join(seq, " "), "a list element is framed as `"+strings.Join(seq, " ")+"`, not [size][bytes]")
 			// count before the loop, equal to the number of elements iterated
 			var before []string
 			_, sibs := p.stmtIndex(loop)
@@ -1100,8 +1151,7 @@ func c12r5(p *Program, r *Report) {
 			r.Unresolved("marshalMap: entry loop not found")
 		} else {
 			seq := writeSeqP(p, info, loop.Body, "buf", 0)
-			want := "size(itemLen) bytes(item) size(itemLen) bytes(item)"
-			r.Check(strings.Join(seq, " ") == want, loop, "marshalMap entry framing", strings.Join(seq, " "), "a map entry is framed as `"+strings.Join(seq, " ")+"`, not [size][key][size][value]")
+			r.Check(framedPairs(seq, 2, "size"), loop, "marshalMap entry framing", strings.Join(seq, " "), "a map entry is framed as `"+strings.Join(seq, " ")+"`, not [size][key][size][value]")
 			// key marshalled with Key type first, value with Elem type second
 			var ms []string
 			for _, c := range callsIn(loop.Body) {
@@ -1141,7 +1191,7 @@ func c12r5(p *Program, r *Report) {
 				}
 			}
 			rs := strings.Join(rest, " ")
-			r.Check(nulls >= 1 && rs == "int(n) bytes(data)" || rs == "lenbytes(data)", loop, fmt.Sprintf("marshalTuple loop %d element framing", n), strings.Join(seq, " "), "a tuple element is framed as `"+strings.Join(seq, " ")+"`, not [int length][bytes] with -1 for null")
+			r.Check(nulls >= 1 && framedPairs(rest, 1, "int") || len(rest) == 1 && strings.HasPrefix(rs, "lenbytes("), loop, fmt.Sprintf("marshalTuple loop %d element framing", n), strings.Join(seq, " "), "a tuple element is framed as `"+strings.Join(seq, " ")+"`, not [int length][bytes] with -1 for null")
 			return true
 		})
 		if n != 3 {
@@ -1158,7 +1208,7 @@ func c12r5(p *Program, r *Report) {
 			}
 			n++
 			seq := writeSeqP(p, info, loop.Body, "buf", 0)
-			r.Check(strings.Join(seq, " ") == "lenbytes(data)", loop, fmt.Sprintf("marshalUDT loop %d field framing in declaration order", n), strings.Join(seq, " "), "a UDT field is framed as `"+strings.Join(seq, " ")+"`, not one [bytes] per declared field in order")
+			r.Check(len(seq) == 1 && strings.HasPrefix(seq[0], "lenbytes("), loop, fmt.Sprintf("marshalUDT loop %d field framing in declaration order", n), strings.Join(seq, " "), "a UDT field is framed as `"+strings.Join(seq, " ")+"`, not one [bytes] per declared field in order")
 			return true
 		})
 		if n != 3 {
@@ -1660,8 +1710,8 @@ func c12r7(p *Program, r *Report) {
 			ok := false
 			ast.Inspect(cc, func(x ast.Node) bool {
 				if ifs, isIf := x.(*ast.IfStmt); isIf {
-					c := strings.ReplaceAll(exprStr(ifs.Cond), " ", "")
-					if strings.Contains(c, "[0]&0x80") {
+					c := foldStr(info, ifs.Cond)
+					if strings.Contains(c, "[0]&128") {
 						for _, ca := range callsIn(ifs.Body) {
 							if exprStr(ca.Fun) == "append" && len(ca.Args) >= 1 {
 								if cl, isC := ca.Args[0].(*ast.CompositeLit); isC && len(cl.Elts) == 1 {
@@ -1681,8 +1731,8 @@ func c12r7(p *Program, r *Report) {
 			ast.Inspect(cc, func(x ast.Node) bool {
 				switch s := x.(type) {
 				case *ast.IfStmt:
-					c := strings.ReplaceAll(exprStr(s.Cond), " ", "")
-					if strings.Contains(c, "[0]==0xff") && strings.Contains(c, "[1]&0x80") {
+					c := foldStr(info, s.Cond)
+					if strings.Contains(c, "[0]==255") && strings.Contains(c, "[1]&128") {
 						for _, st := range s.Body.List {
 							if as, isA := st.(*ast.AssignStmt); isA && len(as.Rhs) == 1 {
 								if sl, isS := as.Rhs[0].(*ast.SliceExpr); isS && sl.Low != nil {
@@ -1817,4 +1867,50 @@ func indexLoopBounds(info *types.Info, f *ast.ForStmt) (string, ast.Expr, bool) 
 		return "", nil, false
 	}
 	return kid.Name, cond.Y, true
+}
+
+// lenNorm: a size argument that is a local defined as len(Y) inside scope is printed as len(Y), so that framing
+// sequences do not depend on the name of the length variable.
+func lenNorm(info *types.Info, scope ast.Node, e ast.Expr) string {
+	id, ok := ast.Unparen(e).(*ast.Ident)
+	if !ok {
+		return exprStr(e)
+	}
+	obj := info.Uses[id]
+	out := exprStr(e)
+	found := false
+	ast.Inspect(scope, func(x ast.Node) bool {
+		as, ok := x.(*ast.AssignStmt)
+		if !ok || len(as.Lhs) != len(as.Rhs) || found {
+			return true
+		}
+		for i, l := range as.Lhs {
+			lid, isId := l.(*ast.Ident)
+			if !isId || obj == nil || (info.Defs[lid] != obj && info.Uses[lid] != obj) {
+				continue
+			}
+			if c, isC := ast.Unparen(as.Rhs[i]).(*ast.CallExpr); isC && exprStr(c.Fun) == "len" && len(c.Args) == 1 {
+				out, found = "len("+exprStr(c.Args[0])+")", true
+			}
+		}
+		return true
+	})
+	return out
+}
+
+// framedPairs: seq is size(len(B)) bytes(B) repeated n times (any B).
+func framedPairs(seq []string, n int, sizeKind string) bool {
+	if len(seq) != 2*n {
+		return false
+	}
+	for i := 0; i < n; i++ {
+		sz, by := seq[2*i], seq[2*i+1]
+		if !strings.HasPrefix(sz, sizeKind+"(len(") || !strings.HasSuffix(sz, "))") || !strings.HasPrefix(by, "bytes(") {
+			return false
+		}
+		if sz[len(sizeKind)+5:len(sz)-2] != by[6:len(by)-1] {
+			return false
+		}
+	}
+	return true
 }
